@@ -168,6 +168,7 @@ fn main() {
         "shrink" => cmd_shrink(&args[2..]),
         "merge-fp" => cmd_merge(&args[2..]),
         "refcheck" => cmd_refcheck(&args[2..]),
+        "framesinfo" => cmd_framesinfo(&args[2..]),
         _ => {
             eprintln!("unknown command");
             std::process::exit(2);
@@ -343,6 +344,36 @@ fn cmd_shrink(a: &[String]) {
 
 /// sanity of the reference model: every libFLAC-made fixture of the repository must be a valid stream
 /// for refflac, with refflac's PCM hashing to the stored MD5 and equal to the crate's decode
+/// refflac's view of a (possibly unfinished) file, for the syscall-level engine
+fn cmd_framesinfo(files: &[String]) {
+    for f in files {
+        let bytes = std::fs::read(f).unwrap_or_default();
+        match refflac::parse_stream(&bytes, 0) {
+            Ok(s) => {
+                let pcm = s.pcm();
+                let mut b = Vec::with_capacity(pcm.len() * 4);
+                for v in &pcm {
+                    b.extend_from_slice(&v.to_le_bytes());
+                }
+                let a = s.meta.audio_start.min(bytes.len());
+                println!(
+                    "{{\"ok\":true,\"len\":{},\"audio_start\":{},\"frames\":{},\"samples\":{},\"pcm_md5\":\"{:x}\",\"audio_md5\":\"{:x}\",\"meta_md5\":\"{:x}\",\"end\":\"{}\",\"valid\":{}}}",
+                    bytes.len(),
+                    s.meta.audio_start,
+                    s.frames.len(),
+                    pcm.len(),
+                    md5::compute(&b),
+                    md5::compute(&bytes[a..]),
+                    md5::compute(&bytes[..a]),
+                    json_escape(&format!("{:?}", s.end)),
+                    s.is_valid()
+                );
+            }
+            Err(e) => println!("{{\"ok\":false,\"len\":{},\"error\":\"{}\"}}", bytes.len(), json_escape(&format!("{e:?}"))),
+        }
+    }
+}
+
 fn cmd_refcheck(files: &[String]) {
     let mut bad = 0;
     for f in files {
